@@ -6,6 +6,7 @@ import copy
 
 from ..axes import AV, AxisEval, RoleClash, Top, source
 from ..core import Ctx
+from ..loader import AnalysisError
 from ..normform import Normalizer, NTop, equal
 from ..stmts import check_side_paths
 from ..symex import SUMMARIZER, expand, strip_ifexp_paths, u, main_leaf, main_path, side_paths
@@ -29,6 +30,7 @@ def run(ctx: Ctx):
     ctx.not_decided = ["numeric p-values (scipy's Student-t cdf is trusted)"]
     t_formula(ctx)
     column_bases(ctx)
+    margin_from_one_line(ctx)
     references(ctx)
     block_calls(ctx)
     pvals(ctx)
@@ -217,6 +219,76 @@ def column_bases(ctx: Ctx):
     ms = ctx.repo.cls(MM, "_MarginSquaredBase")
     e = expand(ctx.repo, ms, "is_defined")
     ctx.check_expr("effective-base.guard", f"{MM}::_MarginSquaredBase.is_defined", e, f"{SOM}.column_squared_bases.is_defined")
+    # the same switch with an EXTRA condition and-ed / or-ed to it (the counts being summable, a dimension type): the
+    # t-tests read this flag as "squared weights were supplied - use the effective base" and nothing else
+    if isinstance(e, ast.BoolOp):
+        from ..exprdiff import canon, parse
+
+        spec = u(canon(parse(f"{SOM}.column_squared_bases.is_defined")))
+        atoms_ = [u(canon(v)) for v in e.values]
+        extra = [a for a in atoms_ if a != spec]
+        if spec in atoms_ and extra:
+            ctx.violated("effective-base.guard.only-squared-weights", f"{MM}::_MarginSquaredBase.is_defined", f"{'and' if isinstance(e.op, ast.And) else 'or'}-ed with {extra}",
+                         "defined exactly when the squared-weights measure is supplied", "the pairwise t-tests use this flag as the switch to the effective base: with the extra condition they silently fall back to the unweighted base although squared weights were supplied")
+
+
+def margin_from_one_line(ctx: Ctx):
+    """A 1-D marginal that is READ OFF ONE LINE of a 2-D per-cell base (`bases[0][0][0, :]`) is the margin only when all
+    lines are alike, i.e. when the opposing dimension is not an array (each MR / array row has its own base).  The
+    sibling marginals say so in `is_defined` (`_counts_are_defined`, `_base_values is not None`) and their `_Slice`
+    accessors fall back to the 2-D bases.  A marginal whose `is_defined` does not (the squared-weight margin: its flag
+    is also the t-tests' switch and must stay "squared weights supplied") needs the same guard in the accessor that
+    assembles it - else an MR x CAT slice hands the legacy pairwise test the FIRST item's squared base for every row."""
+    from ..stmts import positive_guard_atoms
+
+    mod = ctx.repo.module(MM)
+    base = mod.classes.get("_BaseMarginal")
+    som = ctx.repo.cls(MM, "SecondOrderMeasures")
+    sl = ctx.repo.cls("cubepart.py", "_Slice")
+    if base is None:
+        raise AnalysisError("_BaseMarginal vanished")
+
+    def comparable(ci) -> bool:
+        if ctx.repo.lookup(ci, "is_defined") is None:
+            return False
+        t = u(expand(ctx.repo, ci, "is_defined", stop=lambda m: m.name != "is_defined"))
+        return "_counts_are_defined" in t or "_base_values is not None" in t
+
+    n = 0
+    guarded_classes, unguarded = set(), []
+    for ci in mod.classes.values():
+        if base not in ci.mro or ci is base or ctx.repo.lookup(ci, "blocks") is None:
+            continue
+        b = expand(ctx.repo, ci, "blocks", stop=lambda m: True)
+        one_line = [x for x in ast.walk(b) if isinstance(x, ast.Subscript) and u(x.slice) in ("(0, slice(None, None, None))", "(slice(None, None, None), 0)", "0, :", ":, 0", "(0, :)", "(:, 0)") and ".blocks[" in u(x.value)]
+        if not one_line:
+            continue
+        n += 1
+        (guarded_classes.add(ci.name) if comparable(ci) else unguarded.append(ci))
+    ctx.count("marginals read off one line of a 2-D base", n)
+    ctx.require_min("marginals read off one line of a 2-D base", 3)
+    # SecondOrderMeasures member -> marginal class
+    member_cls = {}
+    for name, m in som.members.items():
+        for c in ast.walk(m.node):
+            if isinstance(c, ast.Call) and isinstance(c.func, ast.Name) and c.func.id in mod.classes:
+                member_cls.setdefault(name, c.func.id)
+    for ci in unguarded:
+        members = [k for k, v in member_cls.items() if v == ci.name]
+        sites = 0
+        for name, m in sl.members.items():
+            for c in ast.walk(m.node):
+                if isinstance(c, ast.Call) and u(c.func) == "self._assemble_marginal" and c.args and any(u(c.args[0]) == f"self._measures.{k}" for k in members):
+                    sites += 1
+                    held = [u(a) for a in positive_guard_atoms(m.node, c)]
+                    # negative guards (`if not X.is_defined: return ...` before the call) count as well
+                    held += [u(t) for t in ast.walk(m.node) if isinstance(t, ast.Attribute) and t.attr == "is_defined"]
+                    ok = any(any(f"self._measures.{k}.is_defined" in h for k, v in member_cls.items() if v in guarded_classes) for h in held)
+                    where = f"cubepart.py::_Slice.{name} [{ci.name}]"
+                    ctx.ob("margin-from-one-line", where, sorted(set(held))[:4], "guarded by the definedness of a count margin of the same orientation (else the 2-D bases are returned)", True if ok else False,
+                           f"{ci.name}.blocks is line 0 of the per-cell bases and its is_defined does not say when that is the margin: for an array opposing dimension every row gets the first item's value")
+        if not sites:
+            ctx.undecided("margin-from-one-line", f"{MM}::{ci.name}", "no _Slice accessor assembling it found", "guard in the accessor")
 
 
 def references(ctx: Ctx):
